@@ -376,6 +376,23 @@ pub fn ops_depth1(b: &Base, stride: usize, all_truncations: bool) -> Vec<Op> {
             }
         }
     }
+    // tail splices: our first k links followed by the donor's remaining links and message signature
+    for (di, d) in b.donors.iter().enumerate().take(3) {
+        if d.len() != b.sig.len() {
+            continue;
+        }
+        for (lvl, ps) in ph.sigs.iter().enumerate() {
+            if lvl == 0 {
+                continue;
+            }
+            ops.push(Op::Splice { off: ps.off, len: b.sig.len() - ps.off, donor: di, doff: ps.off, class: format!("chain-tail-from-donor{}", di) });
+            if lvl < ph.pubs.len() {
+                // ... starting at the embedded public key instead of the signature
+                let po = ph.pubs[lvl - 1].0;
+                ops.push(Op::Splice { off: po, len: b.sig.len() - po, donor: di, doff: po, class: format!("chain-tail-from-pubkey-donor{}", di) });
+            }
+        }
+    }
     // cross-level splices inside the same signature (equal-sized fields only)
     let selfdonor = b.donors.len();
     for (i, si) in ph.sigs.iter().enumerate() {
@@ -449,6 +466,26 @@ pub fn chain_games(b: &Base) -> Vec<Op> {
         pk_raised[0..4].copy_from_slice(&u32be((l + 1) as u32));
         ops.push(mk(b.msg.clone(), dup.clone(), b.pk.clone(), "chain-duplicate-first:original-pk"));
         ops.push(mk(b.msg.clone(), dup, pk_raised.clone(), "chain-duplicate-first:pk-L-raised"));
+    }
+    // deep chains: drop / swap a record at every position
+    for k in 1..l.saturating_sub(1) {
+        let a = ph.sigs[k].off;
+        let bnd = ph.sigs[k + 1].off;
+        let mut dropped = u32be((l - 2) as u32).to_vec();
+        dropped.extend_from_slice(&sig[4..a]);
+        dropped.extend_from_slice(&sig[bnd..]);
+        let mut pk_lowered = b.pk.clone();
+        pk_lowered[0..4].copy_from_slice(&u32be((l - 1) as u32));
+        ops.push(mk(b.msg.clone(), dropped.clone(), pk_lowered, "chain-drop-middle:pk-L-lowered"));
+        ops.push(mk(b.msg.clone(), dropped, b.pk.clone(), "chain-drop-middle:original-pk"));
+        if k + 2 < l {
+            let c = ph.sigs[k + 2].off;
+            let mut sw = sig[..a].to_vec();
+            sw.extend_from_slice(&sig[bnd..c]);
+            sw.extend_from_slice(&sig[a..bnd]);
+            sw.extend_from_slice(&sig[c..]);
+            ops.push(mk(b.msg.clone(), sw, b.pk.clone(), "chain-swap-adjacent"));
+        }
     }
     if l >= 3 {
         // swap the first two signed public keys
@@ -527,6 +564,36 @@ pub fn ops_depth2(b: &Base) -> Vec<Op> {
     ops
 }
 
+/// Non-termination watchdog (C06: "... or fail to terminate"): every evaluation registers its start
+/// time and its replayable case; a monitor thread reports an evaluation that runs longer than the
+/// limit as a violation class of its own and terminates the run (the stuck thread cannot be stopped).
+pub struct Watch {
+    pub slots: Mutex<std::collections::HashMap<u64, (std::time::Instant, Value)>>,
+    pub next: AtomicU64,
+}
+pub fn watch() -> &'static Watch {
+    static W: std::sync::OnceLock<Watch> = std::sync::OnceLock::new();
+    W.get_or_init(|| Watch { slots: Mutex::new(std::collections::HashMap::new()), next: AtomicU64::new(0) })
+}
+pub const EVAL_LIMIT_S: u64 = 30;
+pub fn start_watchdog(prop: &str) {
+    let prop = prop.to_string();
+    std::thread::spawn(move || loop {
+        std::thread::sleep(std::time::Duration::from_secs(2));
+        let stuck: Option<Value> = watch().slots.lock().unwrap().values().find(|(t, _)| t.elapsed().as_secs() > EVAL_LIMIT_S).map(|(_, c)| c.clone());
+        if let Some(case) = stuck {
+            let dir = format!("{}/replays/{}", crate::ctx::root(), prop);
+            let _ = std::fs::create_dir_all(&dir);
+            let path = format!("{}/{}_timeout.json", dir, prop);
+            let key = format!("{}:timeout", prop);
+            let doc = json!({"property": prop, "key": key, "what": format!("verification did not return within {} s", EVAL_LIMIT_S), "case": case});
+            let _ = std::fs::write(&path, serde_json::to_string_pretty(&doc).unwrap());
+            println!("VIOLATION property={} replay={} key={} :: a verification call did not return within {} s (non-termination); the run is aborted", prop, path, key, EVAL_LIMIT_S);
+            std::process::exit(1);
+        }
+    });
+}
+
 pub struct S2Stats {
     pub evaluations: AtomicU64,
     pub distinct: Mutex<HashSet<u64>>,
@@ -564,7 +631,10 @@ pub fn run_ops(ctx: &Ctx, b: &Base, ops: &[Op], st: &S2Stats) {
             return;
         }
         let class = op.class();
+        let slot = watch().next.fetch_add(1, Ordering::Relaxed);
+        watch().slots.lock().unwrap().insert(slot, (std::time::Instant::now(), vcase(&b.model, &m, &s, &p, &class, &op.describe())));
         let (v, _maccept, outcome) = eval_triple(&b.model, &m, &s, &p, &class);
+        watch().slots.lock().unwrap().remove(&slot);
         st.evaluations.fetch_add(1, Ordering::Relaxed);
         match outcome {
             "accept/accept" => st.accept_accept.fetch_add(1, Ordering::Relaxed),
